@@ -1,7 +1,7 @@
 (* C04 — filters restrict rows the same way wherever they are evaluated.  Property theorems only (proofs: Proofs/C04_proofs.v).
    Over Model/Sem.v (three-valued predicates) and the wide-row join model of C02 (Model/Mult.v, Model/Join.v). *)
 From Coq Require Import ZArith String List Bool Permutation.
-Require Import V.Model.Sem V.Model.Single V.Model.Mult V.Model.Join V.Proofs.C04_proofs.
+Require Import V.Model.Sem V.Model.Single V.Model.Mult V.Model.Join V.Model.Classify V.Gen.Classify_gen V.Proofs.C04_proofs.
 Import ListNotations.
 Open Scope nat_scope.
 
@@ -38,3 +38,15 @@ Example C04_nonvacuous : all_hold [And (Cmp CGt (Col 0) (Lit (VInt 1%Z))) (IsNul
   /\ all_hold [IsNull (Col 1); Cmp CGt (Col 0) (Lit (VInt 1%Z))] [VInt 5%Z; VNull] = true
   /\ all_hold [Cmp CGt (Col 0) (Lit (VInt 1%Z))] [VNull; VNull] = false.
 Proof. exact and_split_example. Qed.
+
+(* WHERE A FILTER IS EVALUATED, regenerated: Gen/Classify_gen.v holds what SQLGenerator._classify_filters_for_pushdown does with 141 scripted
+   filter lists (conjunctions of atoms that mention one model, two models, a metric, a `_cte`-suffixed table, unqualified or unknown-table
+   columns, text that does not parse), extracted from generator.py on every run by executing the method's AST against a scripted sqlglot
+   (translator/gen_classify.py, fail closed, validated against CPython).  The model `classify` distributes every conjunct the same way ... *)
+Theorem C04_classify_table : forallb (classify_row_ok atoms) classify_rows = true.
+Proof. vm_compute. reflexivity. Qed.
+(* ... and it pushes a conjunct into model M's CTE only if every table-qualified column of a query model it mentions belongs to M and is
+   not a metric -- so a pushed-down filter is a predicate over M's rows alone, which is what C04_pushdown / C04_semijoin assume *)
+Theorem C04_classify_sound : forall models is_metric cols m, classify models is_metric (Some cols) = Push m ->
+  (forall tc m', In tc cols -> ref_model models tc = Some m' -> m' = m /\ is_metric m' (snd tc) = false) /\ In m models.
+Proof. exact classify_push_sound. Qed.
